@@ -8,16 +8,19 @@ CLAIM = {
           'spec encoders of the other properties: rp66_identified_c01 (TD.C01.encode sul recs layout, every conformant label with a '
           'printable identifier, all records and layouts), bit_identified_c13 (TD.C13.encode of any non-empty list of well-formed '
           'passes), dat_identified (TD.C14.Spec.print f in every layout, with the DAT trial parse instantiated by the C14 model '
-          'canParseFile and proved to accept the file), lis_identified_c05 (TD.C05.encode L (header :: records) for every valid '
-          'layout and TIF mode: no earlier test claims the file; the answer of the deep _lis test is a hypothesis), plus the '
+          'canParseFile and proved to accept the file), lis_identified (TD.C05.encode L (header :: records) for every valid '
+          'layout and TIF mode, with the deep test _lis made concrete as TD.C20.lisTest = C05 pad-option scan + reader, C06 FileIndex, '
+          'TIF state, and PROVED to answer the code of the layout when the file has >= 100 physical records (lis_identified_short: or '
+          'the stated scan condition) and building the index over the records does not raise), plus the '
           'prefix-level rp66_identified / bit_identified / lis_family_identified_partial / dat_text_identified and the scanner-level '
           'las12/las20_identified_partial. The model is tied to the code by a correspondence run on valid files of every format, '
           'all truncations <= 400 bytes, mutations, random bytes and adversarial text. "Raises nothing / terminates promptly / '
           'leaves the file readable" are properties of the CPython code, not of the model: they are exercised (partial), with every '
           'exception an oracle failure.'),
- 'note': ('Partial: the LIS deep test (pad-settings scan with keepGoing=True + FileIndexer) stays an abstract parameter — the C05 '
-          'reader model covers keepGoing=False/pad 0 only — so lis_identified_c05 assumes its answer (hdeep) and proves that nothing '
-          'shadows it; LAS is proved at the level of the line scanner, not against TD.C09.print (whose number styles for VERS '
+ 'note': ('Partial: residual hypotheses of lis_identified: >= 100 physical records (else the pad-scan heuristic condition of '
+          'pad_reader_refines_cond), FileIndex does not raise on the record contents (hidx), file < 2^32-24 bytes; lisTest reads whole '
+          'records where FileIndex reads parts (equal on written files by read_refines; compared with _lis on written files in stream '
+          'lis-deep, files outside the C06 model scope skipped); LAS is proved at the level of the line scanner, not against TD.C09.print (whose number styles for VERS '
           'produce files the code does not identify: known finding FC20d). dat_identified needs "fifth byte is not V" (FC20e). '
           'Exceptions, timing and stream position are tested, not proved. Trusted: Lean kernel; Python re/struct/codecs (cp500).'),
  'technique': 'Lean 4 proof (case analysis over a generated signature table, list induction, composition with the C01/C05/C13/C14 spec encoders) + model-implementation correspondence + fuzzing oracle',
@@ -48,6 +51,7 @@ CPU_CAP = 2.0
 WALL_CAP = 10
 MODEL_MAX = 65536        # longer inputs are not sent to the Lean driver (their 64 KB prefix is, as an input of its own)
 HEX_MAX = 65536
+LIS_DEEP_MAX = 16384   # the list-based reader model is quadratic in the file size
 
 # Open findings of this property: (id, exception type, file of the raising frame, function or None).  None at present:
 # FC20a/b/c (see notes/C20.md) were repaired in /repo; their inputs are in CORPUS below and any recurrence is a VIOLATION.
@@ -236,6 +240,7 @@ class Batch:
     def __init__(self, ctx, bft):
         self.ctx, self.bft = ctx, bft
         self.pending = []     # (stream, case, b, impl_out, dat, lis)
+        self.pending_lis = []
         self.seen = set()
 
     def run_one(self, stream, b, origin, expect=None, check_path=False, finding_if_wrong=None):
@@ -286,9 +291,30 @@ class Batch:
         if not out.startswith('EXC:') and out != 'TIMEOUT' and len(b) <= MODEL_MAX:
             lis = out if out in ('LIS', 'LISt', 'LIStr') else '-'
             self.pending.append((stream, origin, b, out, sub_dat(self.bft, b), lis))
+            # the concrete deep test `TD.C20.lisTest` (C05 pad scan + reader, C06 index) against `_lis` itself, on complete
+            # written LIS files (the model obtains the records by whole-record reads, exact when every record is complete)
+            padded_plain = expect == 'LIS' and (origin.get('gen') == 'lispad' or origin.get('sized') == 'lispad')
+            # (plain files with PAD bytes are left out: when the pad options tie the code reads them with pad 0, mis-reads the
+            #  record after the first padded one and still answers LIS because skipping does not notice the end of file —
+            #  the model's whole-record read does notice; see notes)
+            if expect in ('LIS', 'LISt', 'LIStr') and not padded_plain and len(b) <= LIS_DEEP_MAX and stream.split(':')[0] in ('valid', 'sized'):
+                try:
+                    deep = self.bft._lis(io.BytesIO(b)) or '-'
+                except BaseException:
+                    deep = None
+                if deep is not None:
+                    self.pending_lis.append((origin, b, deep))
         return out
 
     def flush(self):
+        if self.pending_lis and getattr(self.ctx, 'model_available', True):
+            replies = self.ctx.lean([f'lis {b.hex() or "-"}' for _, b, _ in self.pending_lis])
+            for (origin, b, deep), m in zip(self.pending_lis, replies):
+                if m == '?':      # record contents outside the scope of the C06 index model (Err.unsupported)
+                    self.ctx.count('lis_deep_out_of_model_scope')
+                    continue
+                self.ctx.corr('lis-deep', case_of(b, origin) if deep != m else None, deep, m)
+        self.pending_lis = []
         if not self.pending or not getattr(self.ctx, 'model_available', True):
             self.pending = []
             return
